@@ -371,19 +371,23 @@ pub fn gen_history(t: &mut Tape, prog: &Program, pf: &Profile) -> Vec<Step> {
     while (v.len() as u32) < n {
         if !guards.is_empty() && t.pick(100) < pf.episode_pct {
             let x = t.pick(nnodes) as u8;
-            let (slot, field, thr) = guards[t.pick(guards.len() as u32) as usize];
-            // at, just below, or anywhere around the threshold
-            let val = match t.pick(3) {
-                0 => thr % VMOD,
-                1 => thr.saturating_sub(1) % VMOD,
-                _ => t.pick(VMOD),
-            };
+            let xarg = t.pick(prog.nodes[x as usize].nargs as u32) as u8;
             if t.chance(3, 4) {
-                v.push(Step::Get { node: x, arg: 0 });
+                v.push(Step::Get { node: x, arg: xarg });
             }
-            v.push(Step::Set { slot, field, val, dur: None });
-            if t.chance(3, 4) {
-                v.push(Step::Get { node: x, arg: 0 });
+            // one or two writes to fields the program looks at, each followed by a re-entry
+            for _ in 0..1 + t.pick(2) {
+                let (slot, field, thr) = guards[t.pick(guards.len() as u32) as usize];
+                // at, just below, or anywhere around the threshold
+                let val = match (thr, t.pick(3)) {
+                    (Some(thr), 0) => thr % VMOD,
+                    (Some(thr), 1) => thr.saturating_sub(1) % VMOD,
+                    _ => t.pick(VMOD),
+                };
+                v.push(Step::Set { slot, field, val, dur: None });
+                if t.chance(3, 4) {
+                    v.push(Step::Get { node: x, arg: xarg });
+                }
             }
             let cs = static_callees(&prog.nodes[x as usize].body);
             if !cs.is_empty() {
@@ -396,7 +400,7 @@ pub fn gen_history(t: &mut Tape, prog: &Program, pf: &Profile) -> Vec<Step> {
                             c = cs2[t.pick(cs2.len() as u32) as usize];
                         }
                     }
-                    v.push(Step::Get { node: c, arg: 0 });
+                    v.push(Step::Get { node: c, arg: t.pick(prog.nodes[c as usize].nargs as u32) as u8 });
                 }
             }
             continue;
@@ -442,14 +446,19 @@ pub fn gen_history(t: &mut Tape, prog: &Program, pf: &Profile) -> Vec<Step> {
     v
 }
 
-/// (slot, field, threshold) of every `If` in the program
-pub fn if_guards(prog: &Program) -> Vec<(u8, u8, u32)> {
-    fn walk(ops: &[Op], out: &mut Vec<(u8, u8, u32)>) {
+/// fields the program looks at: (slot, field, threshold) of every `If`, (slot, field, None) of
+/// every `Read`, in node bodies and in the bodies of the struct / interned functions
+pub fn if_guards(prog: &Program) -> Vec<(u8, u8, Option<u32>)> {
+    fn walk(ops: &[Op], out: &mut Vec<(u8, u8, Option<u32>)>) {
         for o in ops {
-            if let Op::If { slot, field, thr, then, els } = o {
-                out.push((*slot, *field, *thr));
-                walk(then, out);
-                walk(els, out);
+            match o {
+                Op::If { slot, field, thr, then, els } => {
+                    out.push((*slot, *field, Some(*thr)));
+                    walk(then, out);
+                    walk(els, out);
+                }
+                Op::Read { slot, field } => out.push((*slot, *field, None)),
+                _ => {}
             }
         }
     }
@@ -457,6 +466,9 @@ pub fn if_guards(prog: &Program) -> Vec<(u8, u8, u32)> {
     for n in &prog.nodes {
         walk(&n.body, &mut out);
     }
+    walk(&prog.on_ent, &mut out);
+    walk(&prog.on_ent_spec, &mut out);
+    walk(&prog.on_sym, &mut out);
     out
 }
 
